@@ -284,8 +284,18 @@ func (x *Exec) returnAsserts(fr *Frame, st *State, ret *ssa.Return) {
 	blk := ret.Block()
 	idx := len(blk.Instrs) - 1
 	for _, cs := range fr.fc.CallSites {
-		if cs.Callee != "return" || cs.IsUse {
+		if cs.IsUse {
 			continue
+		}
+		if cs.Callee != "return" {
+			// "return#k": only the k-th return statement of the function in source order
+			if !strings.HasPrefix(cs.Callee, "return#") {
+				continue
+			}
+			k, _ := strconv.Atoi(strings.TrimPrefix(cs.Callee, "return#"))
+			if k <= 0 || returnOrdinal(fr.fn, ret) != k {
+				continue
+			}
 		}
 		env := &CEnv{x: x, fr: fr, st: st, old: &fr.entry, pkg: fr.pkg, mode: x.m(), vars: map[string]Value{}, ghostsOK: fr == fr.top, goal: true}
 		env.lookup = func(n string) (Value, bool) { return x.lookupLocalAt(fr, blk, idx, st, n) }
@@ -365,4 +375,23 @@ func (x *Exec) backEdgeAsserts(fr *Frame, li *LoopInfo, from *ssa.BasicBlock, st
 		o := x.vc.oblige("callsite."+tag, Implies(st.Reach, g), x.loopPos(fr, li), fmt.Sprintf("at the end of every iteration of loop %d: %s", li.Ordinal, cs.Clause.Src))
 		o.Clause = cs.Clause.Src
 	}
+}
+
+// returnOrdinal numbers the return statements of fn in source order (1-based).
+func returnOrdinal(fn *ssa.Function, ret *ssa.Return) int {
+	var rs []*ssa.Return
+	for _, b := range fn.Blocks {
+		for _, ins := range b.Instrs {
+			if r, ok := ins.(*ssa.Return); ok {
+				rs = append(rs, r)
+			}
+		}
+	}
+	sort.Slice(rs, func(i, j int) bool { return rs[i].Pos() < rs[j].Pos() })
+	for k, r := range rs {
+		if r == ret {
+			return k + 1
+		}
+	}
+	return 0
 }
